@@ -693,7 +693,7 @@ def run_validity_full(desc):
     calls.append(m)
     if len(calls) > 40:
       raise Violation('validity:testsource-keeps-repeating', gen=gen, k=k, calls=len(calls))
-    return _bits(gen, m, _seed(gen, k * 1000 + len(calls) - 1, 'c13valid'))
+    return _bits(gen, m, _seed(gen, k * 1000 + len(calls) - 1, 'c13valid%d' % lg))
 
   if entry == 'bitstring':
     bits = source(n)
@@ -749,7 +749,7 @@ def _one_first_run(args):
   """First-run p-values of one TESTS entry on one seeded good-generator output."""
   idx, gen, lg, k = args
   n = 1 << lg
-  bits = rng.GetRng(gen).RandomBits(n, seed=_seed(gen, k, 'c13agg'))
+  bits = rng.GetRng(gen).RandomBits(n, seed=_seed(gen, k, 'c13agg%d' % lg))
   test, params = rts.TESTS[idx]
   ts = rts.TestStructure(test, params, 1e-9, 0.01)
   ts.Run(bits, n)
